@@ -23,6 +23,10 @@ SUFFIX_TABLE = {"": "production", ".n": "nightly", ".nightly": "nightly", ".t": 
 create_strategy = st.fixed_dictionaries({
     "release": gen.release_desc(), "layered": st.booleans(), "base_product": gen.release_desc(with_internal=False),
     "type": st.sampled_from(gen.COMPOSE_TYPES), "date": gen.date8, "respin": gen.respin,
+    # ids are created for composes that have content: top-level variants present or not (the library looks at them for one
+    # release family), and that family itself (RHEL 5 on RHEL 5) now and then
+    "variants": st.lists(st.sampled_from(["Client", "Server", "Workstation", "AppStream"]), max_size=3, unique=True),
+    "rhel5": st.sampled_from([None, None, None, None, "5", "5.11", "5.0.1", "50", "6.5"]),
     # the usual "id taken - bump the respin and create again" loop, on the same object and on a loaded one
     "next": st.lists(st.fixed_dictionaries({"type": st.one_of(st.none(), st.sampled_from(gen.COMPOSE_TYPES)), "date": st.one_of(st.none(), gen.date8),
                                             "bump": st.integers(0, 3), "on_loaded": st.booleans()}), max_size=3),
@@ -39,10 +43,16 @@ def has_digit_run(s, n=8):
 
 
 def create_case(case):
-    from productmd.composeinfo import ComposeInfo, get_date_type_respin
+    from productmd.composeinfo import ComposeInfo, Variant, get_date_type_respin
+    if case.get("rhel5"):
+        case = dict(case, release=dict(case["release"], short="RHEL", version=case["rhel5"]), base_product=dict(case["base_product"], short="RHEL", version=case["rhel5"]))
     ci = ComposeInfo()
+    for vid in case.get("variants", []):
+        v = Variant(ci)
+        v.id, v.uid, v.name, v.type, v.arches = vid, vid, vid, "variant", set(["x86_64"])
+        ci.variants.add(v)
     cim.fill_release(ci.release, case["release"], layered=case["layered"])
-    if case["layered"]:
+    if case["layered"] or case.get("rhel5"):
         cim.fill_release(ci.base_product, case["base_product"])
     ci.compose.type, ci.compose.date, ci.compose.respin = case["type"], case["date"], case["respin"]
     cid = must("create", ci.create_compose_id)
@@ -73,7 +83,7 @@ def create_case(case):
             obj.compose.id, nid, got, (cur["date"], cur["type"], cur["respin"])))
         obj.compose.id = nid
     run = has_digit_run(rel["version"]) or has_digit_run(rel["short"]) or (case["layered"] and has_digit_run(case["base_product"]["version"]))
-    labels = [case["type"]] + (["layered"] if case["layered"] else []) + (["digit-run"] if run else []) + (["created-again"] if case.get("next") else [])
+    labels = [case["type"]] + (["layered"] if case["layered"] else []) + (["digit-run"] if run else []) + (["created-again"] if case.get("next") else []) + (["with-variants"] if case.get("variants") else []) + (["rhel5-family"] if case.get("rhel5") else [])
     return {"nontrivial": case["type"] != "production" or case["respin"] > 9 or run or case["layered"], "labels": labels}
 
 
